@@ -320,7 +320,9 @@ open Graphiq.Hilbert in
     disjoint qubits commute as state transformations, for every `n` and every state — two gates; a gate and a measurement
     branch `ρ ↦ Π_o ρ Π_o` of a qubit the gate does not touch; two measurement branches (the general fact is
     `Hilbert.local_conj_comm`: matrices in the algebras of disjoint sets of sites; it is the hypothesis `hcomm` of C13's
-    `compile_independent_of_topological_order`, for outcomes attached to the measurements). -/
+    `compile_independent_of_topological_order`, for outcomes attached to the measurements — discharged there since the
+    cross-reference sweep: `C13.density_matrix_ops_on_disjoint_registers_commute`,
+    `C13.compile_independent_of_topological_order_dm` for the density-matrix semantics `Commute.appD`). -/
 theorem operations_on_disjoint_qubits_commute (n : Nat) (ρ : DMat n) :
     (∀ g h : Gate, g.WF n → h.WF n → (∀ q, gateSites g q → ¬ gateSites h q) →
       gateMat n g * (gateMat n h * ρ * Matrix.conjTranspose (gateMat n h)) * Matrix.conjTranspose (gateMat n g)
